@@ -284,6 +284,12 @@ func leakSig(gs []gdump.G) string {
 }
 
 func (w *worker) runDirect(op *opgen.Op, vars map[string]any, base univ.SeedPlan, pt string) {
+	if w.cr.Counts["hangs_observed"] >= 4 {
+		// enough positive evidence of a hang in this configuration; every further hanging case would
+		// only cost another watchdog period
+		w.count("cases_skipped_after_repeated_hangs", 1)
+		return
+	}
 	p := base
 	ctx, cancel := context.WithCancel(context.Background())
 	defer cancel()
